@@ -10,6 +10,7 @@ pub mod c11;
 pub mod c12;
 pub mod c14;
 pub mod c15;
+pub mod c16;
 pub mod c20;
 
 use crate::engine::Tier;
@@ -34,6 +35,7 @@ pub fn dispatch(id: &str, args: Args) -> ! {
         "C12" => c12::run(args),
         "C14" => c14::run(args),
         "C15" => c15::run(args),
+        "C16" => c16::run(args),
         "C20" => c20::run(args),
         _ => crate::engine::fault(&format!("unknown property {id}")),
     }
